@@ -72,10 +72,12 @@ class A(Adapter):
         base = [
             cfg("g8a2f2", True, g=8, a=2, f=2, fov=8, coop=True, grid=False, norm=True, pen=0.0, tl=None),
             cfg("g6a3f2fov2grid", True, g=6, a=3, f=2, fov=2, coop=False, grid=True, norm=False, pen=0.5, tl=None),
-            cfg("g6a1f1fov1", g=6, a=1, f=1, fov=1, coop=False, grid=False, norm=True, pen=0.0, tl=None),
+            cfg("g6a1f1fov1", True, g=6, a=1, f=1, fov=1, coop=False, grid=False, norm=True, pen=0.0, tl=None),
             cfg("g8a3f2fov2", True, g=8, a=3, f=2, fov=2, coop=True, grid=False, norm=False, pen=0.0, tl=None),
             cfg("g8a2f1fov1grid", g=8, a=2, f=1, fov=1, coop=False, grid=True, norm=True, pen=0.0, tl=None),
         ]
+        # a mid-range field of view (window larger than half the grid but smaller than the grid) for the vector observer
+        base.append(cfg("g8a2f2fov5", True, g=8, a=2, f=2, fov=5, coop=False, grid=False, norm=True, pen=0.0, tl=None))
         return cross_tl(base, [1, 2, 3, 7])
 
     def build(self, c):
